@@ -61,6 +61,8 @@ func (c *configQuoteAwarePostProcessors) PostProcessProperties(properties []*com
 			}
 
 			if useDefaultValue {
+				//an empty map or list counts as absent: without a default the placeholder resolves to nothing
+				expVal = nil
 				var defaultValue string
 				if len(spExp) == 2 {
 					defaultValue = spExp[1]
